@@ -116,6 +116,52 @@ Child(dg, n, c) == [x \in 0..n |-> IF x = 0 THEN c ELSE dg[x - 1]]
 RelOfTiles(p, k) == <<p.rot, p.refl, k.rot, k.refl, k.i - 2 * p.i, k.j - 2 * p.j>>
 Rel(dg, n, o, c) == RelOfTiles(Tile(Anchor(dg, n, o)), Tile(Anchor(Child(dg, n, c), n + 1, o)))
 
+(***************************************************************************)
+(* Transducer view of the parent/child relation.  The walk processes       *)
+(* digits from the most significant end, so the computations for a parent  *)
+(* (n digits) and for its child c (the same digits followed by c) coincide *)
+(* up to the parent's last digit.  What happens afterwards depends only on *)
+(* a LOCAL state: the flip state fl reached before the parent's last       *)
+(* digit, that digit pk (as left by the shift one level up), the child     *)
+(* digit ck and the orientation.  LocalRel recomputes the configuration    *)
+(* from that local state alone (prefix offset 0); MC_Hilbert checks        *)
+(*   (a) LocalRel = Rel on every explored position (n <= 7), and           *)
+(*   (b) LocalRel over ALL local states lies in Configs16,                 *)
+(* so the closure of the 16 configurations holds at every depth as far as  *)
+(* (a) expresses the structure of the algorithm.                           *)
+(***************************************************************************)
+\* state of the walk just before the parent's last digit: flips after pass 1 and after pass 2 coincide
+\* only digit-wise, so both are replayed on the local two-digit problem
+LocalAnchor(fl0, dgs, n, invJ, flipIJ) ==
+  \* run both passes on the digit function dgs (length n in {1, 2}) starting from flip state fl0 and offset 0
+  LET pat == IF flipIJ THEN PATTERNF ELSE PATTERN
+      d2 == Pass1(dgs, n - 1, fl0, invJ, pat)
+      r == Pass2(d2, n - 1, fl0, <<0, 0>>)
+  IN [k |-> d2[0], fl |-> r[2], i |-> r[1][1] - r[1][2], j |-> r[1][2]]
+LocalEpilogue(a, invJ, flipIJ) ==
+  LET a1 == IF ~flipIJ THEN a ELSE
+              LET b  == [a EXCEPT !.i = a.j, !.j = a.i]
+                  b1 == IF b.fl[1] = -1 THEN [b EXCEPT !.i = b.i - 1, !.j = b.j + 1] ELSE b
+              IN IF b1.fl[2] = -1 THEN [b1 EXCEPT !.i = b1.i + 1, !.j = b1.j - 1] ELSE b1
+  \* the constant 2^n of the j-inversion cancels in  child - 2 * parent  and is dropped here
+  IN IF ~invJ THEN a1 ELSE [a1 EXCEPT !.j = -(a1.i + a1.j), !.fl = <<-a1.fl[1], a1.fl[2]>>]
+LocalRel(fl0, pk, ck, o) ==
+  LET rev == o \in {"VU", "WU", "VW"}  invJ == o \in {"WV", "VW"}  flipIJ == o \in {"WU", "UW"}
+      p == Tile(LocalEpilogue(LocalAnchor(fl0, [x \in 0..0 |-> pk], 1, invJ, flipIJ), invJ, flipIJ))
+      c == Tile(LocalEpilogue(LocalAnchor(fl0, [x \in 0..1 |-> IF x = 1 THEN pk ELSE ck], 2, invJ, flipIJ), invJ, flipIJ))
+  IN RelOfTiles(p, c)
+\* the local state reached by the real walk on digits dg (parent, n digits) under orientation o
+RECURSIVE Pass1Upto(_, _, _, _, _, _)
+Pass1Upto(dg, i, fl, invJ, pat, stop) == IF i < stop THEN <<dg, fl>> ELSE
+  LET d2 == Shift(dg, i, fl, invJ, pat) IN Pass1Upto(d2, i - 1, Mul(fl, Q2F(d2[i])), invJ, pat, stop)
+LocalStateOf(dg, n, o) ==
+  LET rev == o \in {"VU", "WU", "VW"}  invJ == o \in {"WV", "VW"}  flipIJ == o \in {"WU", "UW"}
+      din == IF rev THEN [x \in 0..n - 1 |-> 3 - dg[x]] ELSE dg
+      st == Pass1Upto(din, n - 1, <<1, 1>>, invJ, IF flipIJ THEN PATTERNF ELSE PATTERN, 1)
+  IN [fl |-> st[2], pk |-> st[1][0], rev |-> rev]
+FlipStates == {<<1, 1>>, <<1, -1>>, <<-1, 1>>, <<-1, -1>>}
+LocalRelSet == {LocalRel(fl0, pk, ck, o) : fl0 \in FlipStates, pk \in 0..3, ck \in 0..3, o \in Orientations}
+
 \* the complete set of configurations (measured with TLC: identical for n = 2..6, all orientations):
 \* four child placements for each of the four tile types
 Configs16 ==
